@@ -24,6 +24,9 @@ CONFIGS = {
     "cp-pkcs1": {"cmake": ["-DCP_RSAPD=PKCS1", "-DCP_CRT=off"], "cflags": "-O2"},
     "cp-basic": {"cmake": ["-DCP_RSAPD=BASIC"], "cflags": "-O2"},
     "cp-2048": {"cmake": ["-DBN_PRECI=2048"], "cflags": "-O2"},
+    # C13: the direct map-from-randomness entry point ep_map_rnd dispatches on the compile-time EP_MAP only
+    "map-basic": {"cmake": ["-DEP_METHD=PROJC;LWNAF;COMBS;INTER;BASIC"], "cflags": "-O2"},
+    "map-swift": {"cmake": ["-DEP_METHD=PROJC;LWNAF;COMBS;INTER;SWIFT"], "cflags": "-O2"},
 }
 
 
